@@ -347,7 +347,7 @@ CHECKS["C20"] = {
                     "thorough": ["nsub=1", "nsub=2"] + ["nsub=3;nvaa=%d;stalledSub=%d;nfilters=0,1" % (v, st) for v in (1, 2) for st in (9, 0, 1, 2)]},
          "timeout": {"quick": 2400, "thorough": 30000}},
     ],
-    "bounds": {"quick": {"scenarios": "1..2 subscribers with 0..2 filters each (chain id and last address byte symbolic, filters may coincide); 1..3 published VAAs with symbolic emitter chain and address byte; nobody or one subscriber stalled from the start (its Send never returns); afterwards a new subscription, its disconnect, and the disconnect of every draining subscriber",
+    "bounds": {"quick": {"scenarios": "1..2 subscribers with 0..2 filters each (chain id and last address byte symbolic, filters may coincide; the first filter of the first subscriber may carry any 32-bit chain number outside 0..65535); 1..3 published VAAs with symbolic emitter chain and address byte; nobody or one subscriber stalled from the start (its Send never returns); afterwards a new subscription, its disconnect, and the disconnect of every draining subscriber",
                          "unwind": 3000},
                "thorough": {"scenarios": "3 subscribers with 0..1 filters each and 1..2 published VAAs"}},
     "outside": "pre-emptive interleavings inside Publish / SubscribeSignedVAA (the scheduler is cooperative: a goroutine runs until it blocks); gRPC transport; delivery multiplicity (a subscriber with two matching filters is sent the VAA twice today - recorded, not asserted); map iteration order other than insertion order",
